@@ -86,9 +86,9 @@ Clauses(st, e) ==
       <<"call_outcome_equals_unmemoized_execution", {"C02"}, ~En(st, {"C02"}) \/ (e.exc = "" /\ Same(e.out, ExpCallOut(st, e)))>>,
       <<"bodies_run_exactly_once_per_unmemoized_call", {"C02", "C16", "C19"}, ~En(st, {"C02", "C16", "C19"}) \/ Same(e.ran, post.ran)>> >>
    ELSE IF e.op = "Par" THEN <<
-      <<"concurrent_callers_receive_the_unmemoized_outcome", {"C02", "C10"}, ~En(st, {"C02", "C10"}) \/
+      <<"concurrent_callers_receive_the_unmemoized_outcome", {"C02", "C10", "C16"}, ~En(st, {"C02", "C10", "C16"}) \/
            (e.exc = "" /\ \A i \in 1..Len(e.calls) : Same(e.outs[i], Den(st.P, e.calls[i][1], e.calls[i][2], e.calls[i][3]).val))>>,
-      <<"each_unmemoized_body_runs_exactly_once_whatever_the_schedule", {"C02", "C10"}, ~En(st, {"C02", "C10"}) \/
+      <<"each_unmemoized_body_runs_exactly_once_whatever_the_schedule", {"C02", "C10", "C16"}, ~En(st, {"C02", "C10", "C16"}) \/
            BagOf(e.ran) = BagOf(post.ran)>> >>
    ELSE IF e.op = "Batch" THEN <<
       <<"batch_result_equals_elementwise_results_in_order", {"C15"}, ~En(st, {"C15"}) \/ (e.exc = "" /\ Same(e.out, ExpBatchOut(st, e)))>>,
